@@ -63,6 +63,10 @@ func execute(q reqSpec) result {
 	} else {
 		r = httptest.NewRequest(q.Method, q.H.path(), nil)
 	}
+	if q.Unclean != "" {
+		r.URL.Path = q.mangledPath()
+		r.RequestURI = q.mangledPath()
+	}
 	r.Host = q.Host
 	r.Header[hdrID] = []string{id}
 	if q.H.Kind == "dyn" {
